@@ -316,9 +316,8 @@ def _apply_rule(prog, chk, R, app, amp, sp, KS):
                 try:
                     F.env[v['id']] = F.fold(v['init'])
                 except KT.Unfoldable as e:
-                    if (v.get('type') or '').replace('const ', '') == 'bool':
-                        continue      # a flag computed from the matrix (a "fast path" selector): judged where it is used
-                    raise AnalysisBroken('applicator prologue: ' + str(e))
+                    continue      # a flag computed from the matrix (a "fast path" selector), a named constant …: left unbound and judged
+                                  # where it is used (folding an expression that needs it fails there, as analysis-broken)
     two_q = KT.op('<<', KT.I(1), KT.S(q['name']))
     po = _loop_parts(outer)
     inner = [s for s in (outer['body']['body'] if outer['body']['k'] == 'block' else [outer['body']]) if s['k'] == 'for']
